@@ -900,6 +900,9 @@ def run_c19(ctx):
     r_codec.errprop_corpus(ctx)
     import r_panic
     r_panic.run_train(ctx)
+    # a feature that keeps a `\r` (or loses its tail) does not survive the corpus line format
+    import r_feat
+    r_feat.run(ctx)
 
 
 def run_c13(ctx):
